@@ -71,6 +71,7 @@ struct World {
     table: Table,
     sources: HashMap<u64, Arc<Source>>,
     attrs: HashMap<u64, Arc<Vec<Attribute>>>,
+    origs: HashMap<u64, Arc<Vec<Attribute>>>,
     ctrs: HashMap<u64, Arc<AtomicU64>>,
     families: Vec<Family>,
 }
@@ -205,6 +206,15 @@ impl World {
             bin.extend_from_slice(&unrelated);
             bin.extend_from_slice(&[0x06, 0x01, 0, 0, 0xff, 0xff, 0xff, 0xff]);
             out.push(Attribute::new_with_bin(Attribute::EXTENDED_COMMUNITY, bin).unwrap());
+        }
+        // the attributes as received (original_attr) when import policy replaced the block:
+        // another allocation, named by its own token
+        if v.list().len() > 9 && v.at(9).u64() != tok {
+            let mut pre = out.clone();
+            pre.push(Attribute::new_with_value(Attribute::MULTI_EXIT_DESC, 7).unwrap());
+            let o = Arc::new(pre);
+            self.attrs.insert(v.at(9).u64(), o.clone());
+            self.origs.insert(tok, o);
         }
         let a = Arc::new(out);
         self.attrs.insert(tok, a.clone());
@@ -376,6 +386,7 @@ impl World {
                             Val::n(rpid),
                             self.src_tok(&src),
                             Val::opt(nh.map(|n| nh_val(&n))),
+                            self.attr_tok(&_attr),
                         ]));
                     }
                     views.push(m);
@@ -430,6 +441,7 @@ fn run_rib_case(case: &Val) -> Val {
         table: Table::new(shard),
         sources: HashMap::new(),
         attrs: HashMap::new(),
+        origs: HashMap::new(),
         ctrs: HashMap::new(),
         families: vec![fam],
     };
@@ -452,7 +464,7 @@ fn run_rib_case(case: &Val) -> Val {
                     l[3].u32(),
                     l[4].list().first().map(|n| nh_of(n.u64())),
                     a,
-                    None,
+                    w.origs.get(&l[5].at(0).u64()).cloned(),
                     l[6].bool(),
                     l[7].bool(),
                     lim.as_ref().map(|(m, c)| (*m, c)),
